@@ -2,6 +2,7 @@ package main
 
 import (
 	"fmt"
+	"go/token"
 	"go/types"
 	"sort"
 	"strings"
@@ -125,7 +126,23 @@ func ruleDETERM(w *World, r *Report) {
 				ok2 := false
 				for _, c := range callInstrs(fn) {
 					f := c.Common().StaticCallee()
-					if f == nil || f.String() != "sort.Slice" || !instrDominates(c, st) {
+					if f == nil || !instrDominates(c, st) {
+						continue
+					}
+					if f.String() == "sort.Sort" || f.String() == "sort.Stable" {
+						// sort.Sort(byFileID(recoverySet)): a named slice type over the same slice whose Less calls fileIDLess
+						arg := c.Common().Args[0]
+						if mi, isMI := arg.(*ssa.MakeInterface); isMI {
+							arg = mi.X
+						}
+						if ct, isCT := arg.(*ssa.ChangeType); isCT && sameSliceVar(ct.X, st.Val) {
+							if less := w.Prog.LookupMethod(ct.Type(), fn.Pkg.Pkg, "Less"); less != nil && len(callsIn(less, "par2.fileIDLess")) > 0 {
+								ok2 = true
+							}
+						}
+						continue
+					}
+					if f.String() != "sort.Slice" && f.String() != "sort.SliceStable" {
 						continue
 					}
 					if !sameSliceVar(c.Common().Args[0], st.Val) {
@@ -225,6 +242,37 @@ func sameSliceVar(a, b ssa.Value) bool {
 		if lb, ok := b.(*ssa.UnOp); ok && la.X == lb.X {
 			return true
 		}
+	}
+	// a variable captured by a closure lives in a cell: a load of the cell and an append
+	// whose result is stored back into it (or that extends a load of it) are the same variable
+	cellOf := func(v ssa.Value) ssa.Value {
+		switch x := v.(type) {
+		case *ssa.UnOp:
+			if x.Op == token.MUL {
+				if al, ok := x.X.(*ssa.Alloc); ok {
+					return al
+				}
+			}
+		case *ssa.Call:
+			if c := isBuiltinCall(x, "append"); c != nil {
+				for _, ref := range referrersOf(x) {
+					if st, ok := ref.(*ssa.Store); ok && st.Val == ssa.Value(x) {
+						if al, ok := st.Addr.(*ssa.Alloc); ok {
+							return al
+						}
+					}
+				}
+				if ld, ok := stripConv(c.Call.Args[0]).(*ssa.UnOp); ok && ld.Op == token.MUL {
+					if al, ok := ld.X.(*ssa.Alloc); ok {
+						return al
+					}
+				}
+			}
+		}
+		return nil
+	}
+	if ca, cb := cellOf(a), cellOf(b); ca != nil && ca == cb {
+		return true
 	}
 	return false
 }
